@@ -801,3 +801,401 @@ Proof.
   destruct (cli_unconditional thr d fuel o (iccma_input bytes) i q s al F Ht Hvg Hal' V Hf) as (out & log & E & H).
   exists out, log. split; [exact E|]. rewrite Hr in H. exact H.
 Qed.
+
+(* ---- (c) the dynamic solvers: the same walk over Model/Dynamic.v.  The only facts about the data are
+   that table entries are positive (variables are allocated above n_vars >= 0, slots start at 1) and
+   that stored assumption / selector literals are non-zero: [epos], [apos]. *)
+From Crusta Require Import Model.Store Model.Dynamic Proofs.StoreBase Proofs.DynBase Proofs.DynAttTables Proofs.DynAttDefs.
+
+Lemma tbl_set_none t i id v : tbl_var (set_nth i None t) id = Some v -> tbl_var t id = Some v.
+Proof.
+  unfold tbl_var. rewrite nth_error_set_nth_case. destruct (Nat.eqb i id && Nat.ltb i (length t)); [discriminate|auto].
+Qed.
+Lemma tbl_set_some t i w id v : tbl_var (set_nth i (Some w) t) id = Some v -> v = w \/ tbl_var t id = Some v.
+Proof.
+  unfold tbl_var. rewrite nth_error_set_nth_case. destruct (Nat.eqb i id && Nat.ltb i (length t)); [|auto].
+  intros H. injection H as <-. left. reflexivity.
+Qed.
+Lemma tbl_snoc t o id v : tbl_var (t ++ [o]) id = Some v -> tbl_var t id = Some v \/ o = Some v.
+Proof.
+  destruct (Nat.lt_total id (length t)) as [H|[-> |H]].
+  - rewrite tbl_var_snoc_old by exact H. auto.
+  - rewrite tbl_var_snoc_new. auto.
+  - rewrite tbl_var_snoc_beyond by exact H. discriminate.
+Qed.
+Lemma incl_set_nth {A} i (x : A) l : forall y, In y (set_nth i x l) -> y = x \/ In y l.
+Proof.
+  revert i. induction l as [|z r IH]; intros [|i] y H; cbn [set_nth In] in *; try tauto.
+  - destruct H as [<-|H]; auto.
+  - destruct H as [<-|H]; [auto|]. destruct (IH i y H); auto.
+Qed.
+Lemma incl_firstn {A} n (l : list A) : forall y, In y (firstn n l) -> In y l.
+Proof. intros y H. rewrite <- (firstn_skipn n l). apply in_or_app. left; exact H. Qed.
+Lemma incl_swap_remove {A} i (l : list A) : forall y, In y (swap_remove i l) -> In y l.
+Proof.
+  intros y. unfold swap_remove. destruct (rev l) as [|last r] eqn:E; [auto|].
+  assert (Hl : In last l) by (apply in_rev; rewrite E; left; reflexivity).
+  destruct (Nat.eqb i (length l - 1)); intros H; apply incl_firstn in H; [exact H|].
+  destruct (incl_set_nth _ _ _ _ H) as [-> |H']; assumption.
+Qed.
+Lemma clause_ok_incl (a b : clause) : (forall y, In y a -> In y b) -> clause_ok b = true -> clause_ok a = true.
+Proof. unfold clause_ok. rewrite !forallb_forall. auto. Qed.
+
+Definition epos (e : denc) : Prop :=
+  (forall id v, tbl_var (e_a2v e) id = Some v -> 0 < v) /\
+  (forall id v, tbl_var (e_a2s e) id = Some v -> 0 < v) /\
+  clause_ok (e_assum e) = true.
+Definition apos (e : aenc) : Prop :=
+  (forall id v, tbl_var (a_a2v e) id = Some v -> 0 < v) /\ (a_need e = false -> 0 < a_next e).
+Definition xpos (x : xenc) : Prop := match x with XStd e => epos e | XAtt e => apos e end.
+
+Lemma tbl_vars_pos t ids : (forall id v, tbl_var t id = Some v -> 0 < v) ->
+  forall vs, tbl_vars t ids = Some vs -> forall v, In v vs -> 0 < v.
+Proof.
+  intros Hp. induction ids as [|i r IH]; intros vs H v Hv; cbn [tbl_vars] in H.
+  - injection H as <-. destruct Hv.
+  - destruct (tbl_var t i) as [w|] eqn:Ew; [|discriminate]. destruct (tbl_vars t r) as [l|]; [|discriminate].
+    injection H as <-. destruct Hv as [<-|Hv]; [exact (Hp i w Ew)|exact (IH l eq_refl v Hv)].
+Qed.
+
+Lemma cnf_ok_forall f : (forall c l, In c f -> In l c -> lit_ok l = true) -> cnf_ok f = true.
+Proof.
+  intros H. unfold cnf_ok, clause_ok. apply forallb_forall. intros c Hc. apply forallb_forall. intros l Hl. eauto.
+Qed.
+Lemma lit_ok_znlit v : 0 < v -> lit_ok (znlit v) = true.
+Proof. intros H. unfold lit_ok, znlit. lia. Qed.
+Lemma st_clauses_ok sl tv avs : lit_ok sl = true -> 0 < tv -> (forall v, In v avs -> 0 < v) -> cnf_ok (st_clauses sl tv avs) = true.
+Proof.
+  intros Hs Ht Ha. apply cnf_ok_forall. intros c l Hc Hl. unfold st_clauses in Hc.
+  apply in_app_or in Hc. destruct Hc as [Hc|[<-|[]]].
+  - apply in_map_iff in Hc. destruct Hc as (b & <- & Hb). specialize (Ha b Hb).
+    destruct Hl as [<-|[<-|[<-|[]]]]; [rewrite lit_ok_negate; exact Hs|apply lit_ok_znlit; exact Ht|apply lit_ok_znlit; exact Ha].
+  - cbn [app] in Hl. destruct Hl as [<-|[<-|Hl]]; [rewrite lit_ok_negate; exact Hs|apply lit_ok_zlit; exact Ht|].
+    apply in_map_iff in Hl. destruct Hl as (b & <- & Hb). apply lit_ok_zlit, Ha, Hb.
+Qed.
+Lemma co_clauses_ok sl tv avs : lit_ok sl = true -> 0 < tv -> (forall v, In v avs -> 0 < v) -> cnf_ok (co_clauses sl tv avs) = true.
+Proof.
+  intros Hs Ht Ha. assert (Hn : lit_ok (negate sl) = true) by (rewrite lit_ok_negate; exact Hs).
+  apply cnf_ok_forall. intros c l Hc Hl. unfold co_clauses in Hc.
+  apply in_app_or in Hc. destruct Hc as [Hc|Hc].
+  { apply in_map_iff in Hc. destruct Hc as (b & <- & Hb).
+    destruct Hl as [<-|[<-|[<-|[]]]]; [exact Hn|apply lit_ok_znlit; exact Ht|apply lit_ok_zlit; lia]. }
+  apply in_app_or in Hc. destruct Hc as [[<-|[]]|Hc].
+  { cbn [app] in Hl. destruct Hl as [<-|[<-|Hl]]; [exact Hn|apply lit_ok_zlit; exact Ht|].
+    apply in_map_iff in Hl. destruct Hl as (b & <- & Hb). apply lit_ok_znlit. lia. }
+  apply in_app_or in Hc. destruct Hc as [Hc|[<-|[]]].
+  { apply in_map_iff in Hc. destruct Hc as (b & <- & Hb). specialize (Ha b Hb).
+    destruct Hl as [<-|[<-|[<-|[]]]]; [exact Hn|apply lit_ok_zlit; lia|apply lit_ok_znlit; exact Ha]. }
+  cbn [app] in Hl. destruct Hl as [<-|[<-|Hl]]; [exact Hn|apply lit_ok_znlit; lia|].
+  apply in_map_iff in Hl. destruct Hl as (b & <- & Hb). apply lit_ok_zlit, Ha, Hb.
+Qed.
+
+Lemma nab_opt_m {A} (o : option A) : nab (opt_m o) (fun r => o = Some r).
+Proof. destruct o; [apply nab_ret; reflexivity|apply nab_panic]. Qed.
+Lemma nab_unwrap_ok {A} (r : A * result) : nab (unwrap_ok r) (fun a => r = (a, ROk)).
+Proof. destruct r as [a [| |]]; [apply nab_ret; reflexivity|apply nab_panic|apply nab_panic]. Qed.
+Lemma nab_fold_m {A B} (f : A -> B -> Prog.M A) (P : A -> Prop) (l : list B) :
+  (forall a x, P a -> nab (f a x) P) -> forall a, P a -> nab (fold_m f l a) P.
+Proof.
+  intros Hf. induction l as [|x r IH]; intros a Ha; cbn [fold_m]; [apply nab_ret; exact Ha|].
+  eapply nab_bind; [apply Hf; exact Ha|]. intros a' Ha'. apply IH. exact Ha'.
+Qed.
+
+Lemma nab_new_solver_var vars t : nab (new_solver_var vars t) (fun r => 0 < snd r).
+Proof.
+  unfold new_solver_var. eapply nab_bind; [apply nab_nvars|]. intros nv _. apply nab_ret.
+  unfold alloc_var. cbn [snd]. rewrite app_length, repeat_length. lia.
+Qed.
+Lemma nab_alloc_arg_vars sm vars id : nab (alloc_arg_vars sm vars id) (fun r => 0 < snd r).
+Proof.
+  unfold alloc_arg_vars. eapply nab_bind; [apply nab_new_solver_var|]. intros r1 H1.
+  destruct sm; try (apply nab_ret; exact H1);
+    (eapply nab_bind; [apply nab_new_solver_var|]; intros r2 H2;
+     eapply nab_bind; [apply nab_add; cbn [clause_ok forallb]; rewrite !lit_ok_znlit by assumption; reflexivity|];
+     intros _ _; apply nab_ret; exact H1).
+Qed.
+Lemma nab_remove_selector e s : epos e -> 0 < s -> nab (remove_selector e s) epos.
+Proof.
+  intros (P1 & P2 & P3) Hs. unfold remove_selector. destruct (Nat.ltb _ _); [|apply nab_panic].
+  eapply nab_bind; [apply nab_add; rewrite clause_ok_single; apply lit_ok_znlit; exact Hs|]. intros _ _.
+  destruct (position _ _) as [p|]; [|apply nab_panic]. apply nab_ret.
+  unfold epos, enc_with. cbn [e_a2v e_a2s e_assum]. split; [exact P1|]. split; [exact P2|].
+  eapply clause_ok_incl; [apply incl_swap_remove|exact P3].
+Qed.
+
+Section DynWalk.
+Variable L : Type.
+Variable leqb : L -> L -> bool.
+Notation fw := (fw L).
+Notation oracle := dpll_oracle.
+
+Lemma nab_update_attacks_to (af : fw) e id : epos e -> nab (update_attacks_to L af e id) epos.
+Proof.
+  intros He. unfold update_attacks_to. destruct (negb (e_upd e)); [apply nab_ret; exact He|].
+  destruct (nth_error (e_a2s e) id) as [os|] eqn:En; [|apply nab_panic].
+  eapply (nab_bind _ _ epos).
+  - destruct os as [s|]; [|apply nab_ret; exact He].
+    assert (Hs : 0 < s).
+    { destruct He as (_ & P2 & _). apply (P2 id). unfold tbl_var. rewrite En. reflexivity. }
+    eapply nab_bind; [apply nab_remove_selector; assumption|]. intros e' (Q1 & Q2 & Q3). apply nab_ret.
+    unfold epos, enc_with. cbn [e_a2v e_a2s e_assum]. split; [exact Q1|]. split; [|exact Q3].
+    intros i v H. apply tbl_set_none in H. exact (Q2 i v H).
+  - intros e1 (Q1 & Q2 & Q3). eapply nab_bind; [apply nab_new_solver_var|]. intros [vars sv] Hsv. cbn [snd] in Hsv.
+    cbv zeta. destruct (negb _); [apply nab_panic|]. cbn [enc_with e_a2v e_sem].
+    destruct (tbl_var (e_a2v e1) id) as [tv|] eqn:Etv; [|apply nab_panic].
+    destruct (tbl_vars (e_a2v e1) _) as [avs|] eqn:Eav; [|apply nab_panic].
+    assert (Hsl : lit_ok (zlit sv) = true) by (apply lit_ok_zlit; exact Hsv).
+    assert (Htv : 0 < tv) by (exact (Q1 id tv Etv)).
+    assert (Hav : forall v, In v avs -> 0 < v) by (exact (tbl_vars_pos _ _ Q1 avs Eav)).
+    eapply nab_bind.
+    { apply nab_adds. destruct (e_sem e1); [apply co_clauses_ok|apply st_clauses_ok|apply co_clauses_ok]; assumption. }
+    intros _ _. apply nab_ret. unfold epos. cbn [enc_with e_a2v e_a2s e_assum]. split; [exact Q1|]. split.
+    + intros i v H. apply tbl_set_some in H. destruct H as [-> |H]; [exact Hsv|exact (Q2 i v H)].
+    + rewrite clause_ok_app, Q3, clause_ok_single. exact Hsl.
+Qed.
+Lemma nab_fold_update_attacks_to (af : fw) ids : forall e, epos e -> nab (fold_m (update_attacks_to L af) ids e) epos.
+Proof. apply nab_fold_m. intros a x Ha. apply nab_update_attacks_to. exact Ha. Qed.
+
+Lemma nab_enc_new_argument (af : fw) e l : epos e -> nab (enc_new_argument L leqb af e l) (fun r => epos (snd r)).
+Proof.
+  intros He. unfold enc_new_argument. destruct (get_argument L leqb af l); [apply nab_ret; exact He|].
+  destruct (max_argument_id L _) as [arg_id|]; [|apply nab_panic].
+  eapply nab_bind; [apply nab_alloc_arg_vars|]. intros r Hr.
+  eapply nab_bind; [|intros e4 H4; apply nab_ret; exact H4].
+  apply nab_update_attacks_to. destruct He as (P1 & P2 & P3). unfold epos, enc_with. cbn [e_a2v e_a2s e_assum].
+  split; [|split; [|exact P3]].
+  - intros i v H. apply tbl_snoc in H. destruct H as [H|H]; [exact (P1 i v H)|]. injection H as <-. exact Hr.
+  - intros i v H. apply tbl_snoc in H. destruct H as [H|H]; [exact (P2 i v H)|discriminate].
+Qed.
+Lemma nab_enc_remove_argument (af : fw) e l : epos e -> nab (enc_remove_argument L leqb af e l) (fun r => epos (snd (fst r))).
+Proof.
+  intros He. pose proof He as (P1 & P2 & P3). unfold enc_remove_argument.
+  destruct (get_argument L leqb af l) as [arg_id|]; [|apply nab_ret; exact He].
+  destruct (Store.remove_argument L leqb af l) as [af' [| |]]; try (apply nab_ret; exact He).
+  destruct (tbl_var (e_a2v e) arg_id) as [v|] eqn:Ev; [|apply nab_panic].
+  assert (He1 : epos (enc_with e (set_nth arg_id None (e_a2v e)) (e_a2s e) (e_vars e) (e_assum e))).
+  { unfold epos, enc_with. cbn [e_a2v e_a2s e_assum]. split; [|split; assumption].
+    intros i w H. apply tbl_set_none in H. exact (P1 i w H). }
+  eapply (nab_bind _ _ epos).
+  - cbn [enc_with e_a2s]. destruct (nth_error (e_a2s e) arg_id) as [[s|]|] eqn:En; [|apply nab_ret; exact He1|apply nab_panic].
+    assert (Hs : 0 < s) by (apply (P2 arg_id); unfold tbl_var; rewrite En; reflexivity).
+    eapply nab_bind; [apply nab_remove_selector; assumption|]. intros e' (Q1 & Q2 & Q3). apply nab_ret.
+    unfold epos, enc_with. cbn [e_a2v e_a2s e_assum]. split; [exact Q1|]. split; [|exact Q3].
+    intros i w H. apply tbl_set_none in H. exact (Q2 i w H).
+  - intros e2 He2. destruct (Nat.ltb _ _); [|apply nab_panic].
+    eapply nab_bind; [apply nab_add; rewrite clause_ok_single; apply lit_ok_zlit; exact (P1 _ _ Ev)|]. intros _ _.
+    eapply nab_bind; [apply nab_fold_update_attacks_to; exact He2|]. intros e4 H4. apply nab_ret. exact H4.
+Qed.
+Lemma nab_enc_new_attack (af : fw) e a b : epos e -> nab (enc_new_attack L leqb af e a b) (fun r => epos (snd (fst r))).
+Proof.
+  intros He. unfold enc_new_attack. destruct (Store.new_attack L leqb af a b) as [af' [| |]]; [|apply nab_ret; exact He|apply nab_panic].
+  destruct (get_argument L leqb af' b); [|apply nab_panic].
+  eapply nab_bind; [apply nab_update_attacks_to; exact He|]. intros e' H'. apply nab_ret. exact H'.
+Qed.
+Lemma nab_enc_remove_attack (af : fw) e a b : epos e -> nab (enc_remove_attack L leqb af e a b) (fun r => epos (snd (fst r))).
+Proof.
+  intros He. unfold enc_remove_attack. destruct (Store.remove_attack L leqb af a b) as [af' [| |]]; [|apply nab_ret; exact He|apply nab_panic].
+  destruct (get_argument L leqb af' b); [|apply nab_panic].
+  eapply nab_bind; [apply nab_update_attacks_to; exact He|]. intros e' H'. apply nab_ret. exact H'.
+Qed.
+Definition st_pos (st : fw * denc * list nat) : Prop := epos (snd (fst st)).
+Lemma nab_std_replay st ev : st_pos st -> nab (std_replay L leqb st ev) st_pos.
+Proof.
+  destruct st as [[af e] upd]. unfold st_pos. cbn [fst snd]. intros He. unfold std_replay.
+  destruct ev as [l|l|x y|x y|x y z|x y z]; try (apply nab_ret; exact He).
+  - eapply nab_bind; [apply nab_enc_new_argument; exact He|]. intros r Hr.
+    eapply nab_bind; [apply nab_opt_m|]. intros id _. apply nab_ret. exact Hr.
+  - eapply nab_bind; [apply nab_opt_m|]. intros id _. cbv zeta.
+    eapply nab_bind; [apply nab_enc_remove_argument; exact He|]. intros r Hr.
+    eapply nab_bind; [apply nab_unwrap_ok|]. intros p ->. apply nab_ret. exact Hr.
+  - eapply nab_bind; [apply nab_enc_new_attack; exact He|]. intros r Hr.
+    eapply nab_bind; [apply nab_unwrap_ok|]. intros p ->.
+    eapply nab_bind; [apply nab_opt_m|]. intros id _. apply nab_ret. exact Hr.
+  - eapply nab_bind; [apply nab_enc_remove_attack; exact He|]. intros r Hr.
+    eapply nab_bind; [apply nab_unwrap_ok|]. intros p ->.
+    eapply nab_bind; [apply nab_opt_m|]. intros id _. apply nab_ret. exact Hr.
+Qed.
+
+(* ---- the assumptions-on-attacks encoder *)
+Lemma nab_att_new_argument (af : fw) e l : apos e -> nab (att_new_argument L leqb af e l) (fun r => apos (snd r)).
+Proof.
+  intros He. pose proof He as [P1 P2]. unfold att_new_argument. destruct (get_argument L leqb af l); [apply nab_ret; exact He|].
+  destruct (a_need e || Nat.leb (a_n e) (a_next e)) eqn:En.
+  { apply nab_ret. unfold apos. cbn [snd aenc_with a_a2v a_need a_next]. split; [exact P1|discriminate]. }
+  apply orb_false_iff in En. destruct En as [En _]. specialize (P2 En).
+  assert (G : forall vars', apos (aenc_with e (a_a2v e ++ [Some (a_next e)]) vars' (S (a_next e)) (a_n e) false)).
+  { intros vars'. unfold apos. cbn [aenc_with a_a2v a_need a_next]. split; [|lia].
+    intros i v H. apply tbl_snoc in H. destruct H as [H|H]; [exact (P1 i v H)|]. injection H as <-. exact P2. }
+  destruct (max_argument_id L _); [|apply nab_panic]. destruct (Nat.ltb _ _); [|apply nab_panic].
+  destruct (a_sem e); try (apply nab_ret; apply G). destruct (Nat.ltb _ _); [apply nab_ret; apply G|apply nab_panic].
+Qed.
+Lemma nab_att_remove_argument (af : fw) e l : apos e -> nab (att_remove_argument L leqb af e l) (fun r => apos (snd (fst r))).
+Proof.
+  intros He. pose proof He as [P1 P2]. unfold att_remove_argument.
+  destruct (get_argument L leqb af l) as [id|]; [|apply nab_ret; exact He].
+  destruct (Store.remove_argument L leqb af l) as [af' [| |]]; try (apply nab_ret; exact He).
+  destruct (Nat.ltb id (length (a_a2v e))) eqn:Elt; [|apply nab_ret; exact He]. apply Nat.ltb_lt in Elt.
+  destruct (nth id (a_a2v e) None) as [v|] eqn:Env; [|apply nab_ret; exact He].
+  assert (Hv : tbl_var (a_a2v e) id = Some v) by (unfold tbl_var; rewrite (nth_error_nth' _ None Elt), Env; reflexivity).
+  destruct (Nat.ltb _ _); [|apply nab_panic].
+  eapply nab_bind; [apply nab_add; rewrite clause_ok_single; apply lit_ok_zlit; exact (P1 id v Hv)|]. intros _ _.
+  apply nab_ret. unfold apos. cbn [fst snd aenc_with a_a2v a_need a_next]. split; [|exact P2].
+  intros i w H. apply tbl_set_none in H. exact (P1 i w H).
+Qed.
+Lemma nab_att_replay st ev : apos (snd st) -> nab (att_replay L leqb st ev) (fun st' => apos (snd st')).
+Proof.
+  destruct st as [af e]. cbn [snd]. intros He. unfold att_replay.
+  destruct ev as [l|l|x y|x y|x y z|x y z]; try (apply nab_ret; exact He).
+  - apply nab_att_new_argument. exact He.
+  - eapply nab_bind; [apply nab_att_remove_argument; exact He|]. intros r Hr.
+    eapply nab_weaken; [apply nab_unwrap_ok|]. intros p ->. exact Hr.
+  - eapply nab_bind; [apply nab_unwrap_ok|]. intros p _. apply nab_ret. exact He.
+  - eapply nab_bind; [apply nab_unwrap_ok|]. intros p _. apply nab_ret. exact He.
+Qed.
+
+Lemma att_lit_ok n a b : 0 < b -> lit_ok (att_lit n a b) = true.
+Proof. intros H. unfold att_lit. apply lit_ok_zlit. lia. Qed.
+Lemma disj_of_ok n v : 0 < v -> lit_ok (disj_of n v) = true.
+Proof. intros H. unfold disj_of. apply lit_ok_zlit. lia. Qed.
+Ltac lits_ok :=
+  cbn [clause_ok forallb];
+  rewrite ?lit_ok_negate, ?att_lit_ok, ?disj_of_ok, ?lit_ok_zlit, ?lit_ok_znlit by lia; reflexivity.
+
+Lemma nab_st_inner n a (Ha : 0 < a) bsl : (forall b, In b bsl -> 0 < b) ->
+  forall cl, clause_ok cl = true -> nab (st_inner n a bsl cl) (fun c => clause_ok c = true).
+Proof.
+  induction bsl as [|b r IH]; intros Hb cl Hcl; cbn [st_inner]; [apply nab_ret; exact Hcl|].
+  assert (H0 : 0 < b) by (apply Hb; left; reflexivity).
+  eapply nab_bind; [apply nab_nvars|]. intros nv _. cbv zeta.
+  eapply nab_bind; [apply nab_add; lits_ok|]. intros _ _.
+  eapply nab_bind; [apply nab_add; lits_ok|]. intros _ _.
+  eapply nab_bind; [apply nab_add; lits_ok|]. intros _ _.
+  eapply nab_bind; [apply nab_add; lits_ok|]. intros _ _.
+  apply IH; [intros x Hx; apply Hb; right; exact Hx|].
+  rewrite clause_ok_app, Hcl, clause_ok_single. apply lit_ok_zlit. lia.
+Qed.
+Lemma nab_co_inner1 n a (Ha : 0 < a) bsl : (forall b, In b bsl -> 0 < b) ->
+  forall cl, clause_ok cl = true -> nab (co_inner1 n a bsl cl) (fun c => clause_ok c = true).
+Proof.
+  induction bsl as [|b r IH]; intros Hb cl Hcl; cbn [co_inner1]; [apply nab_ret; exact Hcl|].
+  assert (H0 : 0 < b) by (apply Hb; left; reflexivity).
+  eapply nab_bind; [apply nab_nvars|]. intros nv _. cbv zeta.
+  eapply nab_bind; [apply nab_add; lits_ok|]. intros _ _.
+  eapply nab_bind; [apply nab_add; lits_ok|]. intros _ _.
+  eapply nab_bind; [apply nab_add; lits_ok|]. intros _ _.
+  eapply nab_bind; [apply nab_add; lits_ok|]. intros _ _.
+  apply IH; [intros x Hx; apply Hb; right; exact Hx|].
+  rewrite clause_ok_app, Hcl, clause_ok_single. apply lit_ok_zlit. lia.
+Qed.
+Lemma nab_co_inner2 n a (Ha : 0 < a) bsl : (forall b, In b bsl -> 0 < b) ->
+  forall cl, clause_ok cl = true -> nab (co_inner2 n a bsl cl) (fun c => clause_ok c = true).
+Proof.
+  induction bsl as [|b r IH]; intros Hb cl Hcl; cbn [co_inner2]; [apply nab_ret; exact Hcl|].
+  assert (H0 : 0 < b) by (apply Hb; left; reflexivity).
+  eapply nab_bind; [apply nab_nvars|]. intros nv _. cbv zeta.
+  eapply nab_bind; [apply nab_add; lits_ok|]. intros _ _.
+  eapply nab_bind; [apply nab_add; lits_ok|]. intros _ _.
+  eapply nab_bind; [apply nab_add; lits_ok|]. intros _ _.
+  eapply nab_bind; [apply nab_add; lits_ok|]. intros _ _.
+  apply IH; [intros x Hx; apply Hb; right; exact Hx|].
+  rewrite clause_ok_app, Hcl, clause_ok_single. apply lit_ok_zlit. lia.
+Qed.
+Lemma seq1_pos n b : In b (seq 1 n) -> 0 < b.
+Proof. intros H. apply in_seq in H. lia. Qed.
+Lemma nab_fold_unit {B} (f : unit -> B -> Prog.M unit) (l : list B) :
+  (forall x, In x l -> nab (f tt x) T) -> nab (fold_m f l tt) T.
+Proof.
+  induction l as [|x r IH]; intros H; cbn [fold_m]; [apply nab_ret; exact I|].
+  eapply nab_bind; [apply H; left; reflexivity|]. intros [] _. apply IH. intros y Hy. apply H. right; exact Hy.
+Qed.
+
+Lemma fold_set_pos (l : list (nat * nat)) : forall t,
+  (forall p, In p l -> 0 < snd p) -> (forall id v, tbl_var t id = Some v -> 0 < v) ->
+  forall id v, tbl_var (fold_left (fun t p => set_nth (fst p) (Some (snd p)) t) l t) id = Some v -> 0 < v.
+Proof.
+  induction l as [|p r IH]; intros t Hl Ht id v H; cbn [fold_left] in H; [exact (Ht id v H)|].
+  apply (IH (set_nth (fst p) (Some (snd p)) t)) in H; [exact H|intros q Hq; apply Hl; right; exact Hq|].
+  intros i w Hw. apply tbl_set_some in Hw. destruct Hw as [-> |Hw]; [apply Hl; left; reflexivity|exact (Ht i w Hw)].
+Qed.
+Lemma fresh_a2v_pos (af : fw) id v : tbl_var (att_fresh_a2v L af) id = Some v -> 0 < v.
+Proof.
+  unfold att_fresh_a2v. apply fold_set_pos.
+  - intros [i w] Hp. apply in_combine_r in Hp. cbn [snd]. apply in_seq in Hp. lia.
+  - intros i w H. rewrite tbl_var_repeat_none in H. discriminate H.
+Qed.
+
+Lemma nab_att_update_encoding (af : fw) e : apos e -> nab (att_update_encoding L af e) apos.
+Proof.
+  intros He. unfold att_update_encoding. destruct (negb (a_need e)); [apply nab_ret; exact He|].
+  set (n := n_arguments L af * a_num e / a_den e).
+  assert (Hres : forall vars, apos (aenc_with e (att_fresh_a2v L af) vars (n_arguments L af + 1) n false)).
+  { intros vars. unfold apos. cbn [aenc_with a_a2v a_need a_next]. split; [apply fresh_a2v_pos|lia]. }
+  destruct (a_sem e); [| |apply nab_panic].
+  - eapply nab_bind; [apply nab_new|]. intros _ _. eapply nab_bind; [apply nab_reserve|]. intros _ _.
+    destruct (Nat.ltb _ _); [apply nab_panic|].
+    eapply nab_bind.
+    { apply nab_fold_unit. intros a Ha. apply seq1_pos in Ha.
+      eapply nab_bind; [apply nab_add; lits_ok|]. intros _ _.
+      eapply nab_bind; [apply (nab_co_inner1 n a Ha); [apply seq1_pos|rewrite clause_ok_single; apply lit_ok_zlit; exact Ha]|].
+      intros cl Hcl. apply nab_add. exact Hcl. }
+    intros _ _. eapply nab_bind; [|intros _ _; apply nab_ret; apply Hres].
+    apply nab_fold_unit. intros a Ha. apply seq1_pos in Ha.
+    eapply nab_bind; [apply (nab_co_inner2 n a Ha); [apply seq1_pos|rewrite clause_ok_single, lit_ok_negate; apply disj_of_ok; exact Ha]|].
+    intros cl Hcl. apply nab_add. exact Hcl.
+  - eapply nab_bind; [apply nab_new|]. intros _ _. eapply nab_bind; [apply nab_reserve|]. intros _ _.
+    destruct (Nat.ltb _ _); [apply nab_panic|].
+    eapply nab_bind; [|intros _ _; apply nab_ret; apply Hres].
+    apply nab_fold_unit. intros a Ha. apply seq1_pos in Ha.
+    eapply nab_bind; [apply (nab_st_inner n a Ha); [apply seq1_pos|rewrite clause_ok_single; apply lit_ok_zlit; exact Ha]|].
+    intros cl Hcl. apply nab_add. exact Hcl.
+Qed.
+
+(* ---- update_encoding of either encoder, and the two queries *)
+Lemma nab_update_encoding (af : fw) b : xpos (b_enc L b) -> nab (update_encoding L leqb af b) (fun r => xpos (b_enc L (snd r))).
+Proof.
+  intros Hx. unfold update_encoding. destruct (b_enc L b) as [e|e]; cbn [xpos] in Hx.
+  - eapply nab_bind; [apply (nab_fold_m _ st_pos); [intros a x Ha; apply nab_std_replay; exact Ha|exact Hx]|].
+    intros [[af' e'] upd] He'. unfold st_pos in He'. cbn [fst snd] in He'.
+    eapply nab_bind; [apply nab_fold_update_attacks_to; exact He'|]. intros e'' He''. apply nab_ret. exact He''.
+  - eapply nab_bind; [apply (nab_fold_m _ (fun st => apos (snd st))); [intros a x Ha; apply nab_att_replay; exact Ha|exact Hx]|].
+    intros st Hst. eapply nab_bind; [apply nab_att_update_encoding; exact Hst|]. intros e' He'. apply nab_ret. exact He'.
+Qed.
+Lemma att_assumptions_ok (af : fw) e asm : att_assumptions L af e = Some asm -> clause_ok asm = true.
+Proof.
+  unfold att_assumptions. destruct (att_indices e _) as [idx|]; [|discriminate]. intros H. apply some_inj in H. subst asm.
+  apply clause_ok_map. intros i _. destruct (memb i idx); [apply lit_ok_zlit|apply lit_ok_znlit]; lia.
+Qed.
+Lemma nab_x_assumptions (af : fw) x : xpos x -> nab (x_assumptions L af x) (fun a => clause_ok a = true).
+Proof.
+  intros Hx. destruct x as [e|e]; cbn [x_assumptions xpos] in *.
+  - apply nab_ret. exact (proj2 (proj2 Hx)).
+  - eapply nab_weaken; [apply nab_opt_m|]. intros a. apply att_assumptions_ok.
+Qed.
+Lemma nab_x_arg_var (af : fw) x l : xpos x -> nab (x_arg_var L leqb af x l) (fun v => 0 < v).
+Proof.
+  intros Hx. unfold x_arg_var. eapply nab_bind; [apply nab_opt_m|]. intros id _.
+  eapply nab_weaken; [apply nab_opt_m|]. intros v Hv. destruct x as [e|e]; cbn [x_a2v xpos] in *; [exact (proj1 Hx _ _ Hv)|exact (proj1 Hx _ _ Hv)].
+Qed.
+Definition spos (s : dsolver L) : Prop := xpos (b_enc L (s_buf L s)).
+Lemma nab_dc_query (s : dsolver L) l : spos s -> nab (dc_query oracle L leqb s l) (fun r => spos (fst r)).
+Proof.
+  intros Hs. unfold dc_query. destruct (is_cred L leqb (s_buf L s) l) as [[b|] [e|]]; try (apply nab_ret; exact Hs).
+  all: eapply nab_bind; [apply nab_update_encoding; exact Hs|]; intros [af buf] Hb; cbn [snd] in Hb;
+    eapply nab_bind; [apply nab_x_assumptions; exact Hb|]; intros asm Hasm;
+    eapply nab_bind; [apply nab_x_arg_var; exact Hb|]; intros v Hv;
+    (eapply nab_bind; [apply nab_solve; rewrite clause_ok_app, Hasm, clause_ok_single; apply lit_ok_zlit; exact Hv|]);
+    intros [m|] _; [eapply nab_bind; [apply nab_opt_m|]; intros acc _|]; apply nab_ret; exact Hb.
+Qed.
+Lemma nab_st_ds_query (s : dsolver L) l : spos s -> nab (st_ds_query oracle L leqb s l) (fun r => spos (fst r)).
+Proof.
+  intros Hs. unfold st_ds_query. destruct (is_skep L leqb (s_buf L s) l) as [[b|] [e|]]; try (apply nab_ret; exact Hs).
+  all: eapply nab_bind; [apply nab_update_encoding; exact Hs|]; intros [af buf] Hb; cbn [snd] in Hb;
+    eapply nab_bind; [apply nab_x_assumptions; exact Hb|]; intros asm Hasm;
+    eapply nab_bind; [apply nab_x_arg_var; exact Hb|]; intros v Hv;
+    (eapply nab_bind; [apply nab_solve; rewrite clause_ok_app, Hasm, clause_ok_single; apply lit_ok_znlit; exact Hv|]);
+    intros [m|] _;
+    [eapply nab_bind; [apply nab_opt_m|]; intros acc _
+    |eapply nab_bind; [apply nab_opt_m|]; intros id _; eapply nab_bind; [apply nab_opt_m|]; intros refused _];
+    apply nab_ret; exact Hb.
+Qed.
+End DynWalk.
